@@ -13,30 +13,32 @@ Fixpoint lookup (n: string) (e: env) : option data := match e with [] => None | 
 Definition named_type (t: ty) : option string := match t with Ty (CNamed [n]) None None None => Some n | _ => None end.
 Definition bind_o {A B} (o: option A) (k: A -> option B) : option B := match o with Some a => k a | None => None end.
 
+(* one field, given the shapes of nested types *)
+Definition field_strat (nested: ty -> option shape) (f: field) : option fstrat :=
+  let t := f_ty f in
+  if attrs_skip (f_attrs f) then Some FSkip else
+  match attrs_recurse (f_attrs f), attrs_collection_type (f_attrs f), is_option t with
+  | false, None, _ => Some FPlain
+  | true, None, false => option_map FRecurse (nested t)
+  | true, None, true => bind_o (first_wrapped t) (fun inner => option_map FRecurseOpt (nested inner))
+  | false, Some OrderedArrayLike, false => match wrapped t with Some (_ :: _) => Some FOrdered | _ => None end      (* the element type is read off the first generic argument *)
+  | false, Some UnorderedArrayLikeHash, false => match wrapped t with Some (_ :: _) => Some FUnordArr | _ => None end
+  | false, Some (UnorderedMapLikeHash _), false => match wrapped t with Some _ => Some FMapFlat | None => None end
+  | true, Some (UnorderedMapLikeHash m), false =>
+      match wrapped t with
+      | Some [_; v] => option_map (FMapRec (match m with ParseInterp.KeyOnly => true | ParseInterp.KeyAndValue => false end)) (nested v)
+      | _ => None
+      end
+  | _, _, _ => None                                               (* the templates panic: "not yet supported" *)
+  end.
+Fixpoint fields_strats (nested: ty -> option shape) (l: list field) : option fields :=
+  match l with [] => Some FNil | f :: r => bind_o (field_strat nested f) (fun x => option_map (FCons x) (fields_strats nested r)) end.
+
 Fixpoint shape_of (fuel: nat) (e: env) (d: data) : option shape :=
   match fuel with 0 => None | S k =>
   match d with
   | DEnum _ => Some SEnum
   | DStruct s =>
       let nested (t: ty) : option shape := bind_o (named_type t) (fun n => bind_o (lookup n e) (shape_of k e)) in
-      let strat (f: field) : option fstrat :=
-        let t := f_ty f in
-        if attrs_skip (f_attrs f) then Some FSkip else
-        match attrs_recurse (f_attrs f), attrs_collection_type (f_attrs f), is_option t with
-        | false, None, _ => Some FPlain
-        | true, None, false => option_map FRecurse (nested t)
-        | true, None, true => bind_o (first_wrapped t) (fun inner => option_map FRecurseOpt (nested inner))
-        | false, Some OrderedArrayLike, false => Some FOrdered
-        | false, Some UnorderedArrayLikeHash, false => Some FUnordArr
-        | false, Some (UnorderedMapLikeHash _), false => Some FMapFlat
-        | true, Some (UnorderedMapLikeHash m), false =>
-            match wrapped t with
-            | Some [_; v] => option_map (FMapRec (match m with ParseInterp.KeyOnly => true | ParseInterp.KeyAndValue => false end)) (nested v)
-            | _ => None
-            end
-        | _, _, _ => None                                               (* the templates panic: "not yet supported" *)
-        end in
-      option_map SStruct
-        ((fix go (l: list field) : option fields :=
-            match l with [] => Some FNil | f :: r => bind_o (strat f) (fun x => option_map (FCons x) (go r)) end) (s_fields s))
+      option_map SStruct (fields_strats nested (s_fields s))
   end end.
